@@ -308,6 +308,16 @@ are not among them, so only scalar constraints produce an `Annotated[…]` -/
 def msAnnotated (f : FieldRec) : Bool :=
   f.useAnnotated && f.constraints == .keyword && f.ty == .scalar
 
+/-- `_has_field_assignment(field)` of `model/dataclass.py` and `model/msgspec.py`: the key by which
+`DataClass.__init__` / `Struct.__init__` stably sort the members (`sorted(fields, key=…)`), so that
+members without a default come first. Other kinds keep the schema order (`none`). -/
+def sortKey (k : Kind) (f : FieldRec) : Option Bool :=
+  let noAssign := f.required || (f.dflt.isNone && f.stripDefaultNone)
+  match k with
+  | .dc => some ((dcFieldAsg f).isSome || !noAssign)
+  | .ms => some (!noAssign)
+  | _ => none
+
 /-! ## Stage 2c — the class template: which outputs are written for a member -/
 
 structure Env where
